@@ -6,6 +6,25 @@ Open Scope string_scope.
 Definition needed_ok (tbl : term) (p : profile) : bool :=
   forallb (fun f => String.eqb (f_name f) "" || tbl_has tbl (simplify_func (f_name f))) (p_function p).
 
+(* The specification's "fully matches": the harness ships, for drop_frames / keep_frames, a FULL-MATCH
+   ORACLE entry "=full=<expr>" computed from the expression itself (leftmost-longest match spanning the
+   whole subject), independent of any anchoring string.  The spec side reads an anchored expression
+   ^(e)$ through that oracle when it is there (e compiles on its own); the model keeps compiling the
+   string the code builds. *)
+Definition strip_anchor (rx : string) : option string :=
+  if has_prefix "^(" rx && has_suffix ")$" rx
+  then Some (take (String.length rx - 4)%nat (drop 2 rx)) else None.
+Definition full_key (e : string) : string := "=full=" ++ e.
+Definition tbl_Mfull (tbl : term) (rx s : string) : bool :=
+  match strip_anchor rx with
+  | Some e => if tbl_V tbl (full_key e) then tbl_M tbl (full_key e) s else tbl_M tbl rx s
+  | None => tbl_M tbl rx s
+  end.
+(* the anchoring the model performs realises "fully matches" on every subject of the case *)
+Definition oracle_consistent (tbl : term) (e : string) : bool :=
+  negb (tbl_V tbl (full_key e))
+  || forallb (fun t => Bool.eqb (tbl_M tbl (anchor e) (gs t)) (tbl_M tbl (full_key e) (gs t))) (gl (gn tbl 0)).
+
 (* id-free rendering of frame samples, for observables that went through the driver (fetchProfiles
    may renumber / compact): a frame is (function name, file, line) or an address *)
 Definition free_frame (p : profile) (fr : frame) : term :=
@@ -74,7 +93,8 @@ Definition spec_C11 (i o : term) : bool :=
   let op := gs (gn i 0) in
   if String.eqb op "simplify" then
     (* the simplified name is a prefix of the name without its leading dot *)
-    has_prefix (gs o) (trim_prefix "." (gs (gn i 1)))
+    (* ... and no argument list is left: scanning the result again finds no bare "(" to cut at *)
+    has_prefix (gs o) (trim_prefix "." (gs (gn i 1))) && String.eqb (simp_scan (gs o) 0) (gs o)
   else
     let p := profile_of (gn i 1) in
     let p' := with_obs p o 1 in
@@ -87,7 +107,9 @@ Definition spec_C11 (i o : term) : bool :=
       if String.eqb (p_dropframes p) "" then
         (* a profile without such expressions is left untouched *)
         String.eqb (gs (gn o 0)) "ok" && term_eqb (TL (obs_profile p')) (TL (obs_profile p))
-      else if String.eqb (gs (gn o 0)) "ok" then check_prune (tbl_M tbl) p (ru_drop p) (ru_keep p) p'
+      else if String.eqb (gs (gn o 0)) "ok" then
+        check_prune (tbl_Mfull tbl) p (ru_drop p) (ru_keep p) p'
+        && oracle_consistent tbl (p_dropframes p) && oracle_consistent tbl (p_keepframes p)
       else (* an expression that does not compile: error, profile untouched *)
         (negb (tbl_V tbl (ru_drop p)) || match ru_keep p with Some k => negb (tbl_V tbl k) | None => false end)
         && term_eqb (TL (obs_profile p')) (TL (obs_profile p))
@@ -95,12 +117,13 @@ Definition spec_C11 (i o : term) : bool :=
       let tbl := gn i 2 in
       let compiles := tbl_V tbl (ru_drop p) && match ru_keep p with Some k => tbl_V tbl k | None => true end in
       let want := if String.eqb (p_dropframes p) "" || negb compiles then fsamples p
-                  else spec_prune (tbl_M tbl) p (ru_drop p) (ru_keep p) (fsamples p) in
+                  else spec_prune (tbl_Mfull tbl) p (ru_drop p) (ru_keep p) (fsamples p) in
       String.eqb (gs (gn o 0)) "ok" && term_eqb (gn o 1) (free_fsamples p want)
+      && oracle_consistent tbl (p_dropframes p) && oracle_consistent tbl (p_keepframes p)
     else if String.eqb op "history" then
       let tbl := gn i 3 in
       String.eqb (gs (gn o 0)) "ok"
-      && term_eqb (gn o 1) (free_fsamples p (spec_steps (tbl_M tbl) (tbl_V tbl) p (steps_of (gn i 2)) (fsamples p)))
+      && term_eqb (gn o 1) (free_fsamples p (spec_steps (tbl_Mfull tbl) (tbl_V tbl) p (steps_of (gn i 2)) (fsamples p)))
     else false.
 
 Definition cls_C11 (i : term) : list Z :=
